@@ -280,13 +280,17 @@ fn b32(len: usize, dsize: usize) -> Vec<u32> {
         l.wrapping_sub(0x21), l.wrapping_sub(0x20), l.wrapping_sub(0x1F), l.wrapping_sub(4), l.wrapping_sub(1), l, l.wrapping_add(1),
         d.wrapping_sub(1), d, d.wrapping_add(1),
         0x3FFF_FFFF, 0x4000_0000, 0x7FFF_FFFF, 0x8000_0000, 0xFFFF_FFE0, 0xFFFF_FFF0, 0xFFFF_FFFC, 0xFFFF_FFFF,
+        // words that are special as TEXT wherever they land: a byte-order mark before a letter (both
+        // marks), a lone high / low surrogate, a reversed surrogate pair, a letter before a high surrogate
+        0x0000_FEFF, 0x0041_FEFF, 0x0041_FFFE, 0x0041_D800, 0xD800_DC00, 0xD83D_0041,
     ];
     v.sort();
     v.dedup();
     v
 }
 
-const BYTE_VALUES: [u8; 5] = [0x00, 0x01, 0x7F, 0x80, 0xFF];
+// (0x81 / 0xFA: Shift-JIS lead bytes that leave a character dangling in front of whatever follows)
+const BYTE_VALUES: [u8; 7] = [0x00, 0x01, 0x7F, 0x80, 0xFF, 0x81, 0xFA];
 const APPENDS: [(usize, u8); 6] = [(1, 0), (4, 0), (32, 0), (1, 0xFF), (4, 0xFF), (32, 0xFF)];
 
 struct Plan {
